@@ -173,6 +173,13 @@ class Gen:
 
     def act_version(self, cl):
         seed = self.rng.choice([0, 1, 0x7fffffff, self.rng.randrange(1 << 31), self.rng.randrange(1 << 31)])
+        if self.rng.random() < 0.3:
+            # a challenge whose expected response contains a zero byte (string-compare slips show there)
+            for _ in range(200):
+                cand = self.rng.randrange(1 << 31)
+                if 0 in C.login_hash(self.pw, cand)[:8]:
+                    seed = cand
+                    break
         self.h.send("rand %d" % seed)
         ver = C.PROTOCOL_VERSION if self.rng.random() < 0.93 else self.rng.choice([0, 0x501, 0x503, 0xffffffff])
         st = self.q(cl, cl.c.version(ver), meta={"kind": "V"})
@@ -193,10 +200,19 @@ class Gen:
         if r < 0.12:
             kw["password"] = self.pw + b"x"
         elif r < 0.2:
-            kw["seed"] = (cl.c.seed + self.rng.choice([1, -1, 12345])) & 0xffffffff
+            kw["seed"] = self.rng.choice([(cl.c.seed + self.rng.choice([1, -1, 12345])) & 0xffffffff, cl.c.seed ^ (1 << self.rng.randrange(32))])
         elif r < 0.25:
             kw["userid"] = self.rng.randrange(256)
-        st = self.q(cl, cl.c.login(**kw), meta={"kind": "L", "good": not kw})
+        name = cl.c.login(**kw)
+        if not kw and self.rng.random() < 0.25:
+            # the right response up to its first zero byte, garbage behind it; or all zeros
+            good = C.login_hash(self.pw, cl.c.seed)
+            z = good.find(b"\0")
+            forged = (good[:z + 1] + bytes(self.rng.randrange(1, 256) for _ in range(15 - z))) if z >= 0 and self.rng.random() < 0.7 else bytes(16)
+            if forged != good:
+                name = C.hostname(b"l", bytes([cl.c.userid & 0xff]) + forged + cl.c._rs(), self.td)[0]
+                kw = {"forged": True}
+        st = self.q(cl, name, meta={"kind": "L", "good": not kw})
         if st:
             for e in st.events:
                 if e[0] == "ans":
@@ -222,7 +238,7 @@ class Gen:
             if st and u is None and letter in (b"l", b"L", b"i") and any(e[0] == "ans" and vlib.unhx(e[6]) in (b"Lazy", b"Immediate") for e in st.events):
                 cl.lazy = letter != b"i"
         elif r < 0.65:
-            fs = self.rng.choice([0, 1, 2, 3, 50, 99, 100, 101, 200, 1200, 4094, 4095, 4096, 65535, self.rng.randrange(65536)])
+            fs = self.rng.choice([0, 1, 2, 3, 50, 99, 100, 101, 200, 1200, 4094, 4095, 4096, 5000, 65535, self.rng.randrange(65536)])
             self.q(cl, cl.c.set_fragsize(fs, u), meta={"kind": "N", "fs": fs})
         elif r < 0.75:
             self.h.send("rand %d" % self.rng.randrange(1 << 31))
@@ -279,6 +295,8 @@ class Gen:
         st = self.q(cl, name, meta={"kind": "D", "image": img, "off": off, "n": n})
         if st:
             cl.sent.append(st)
+            if self.rng.random() < 0.2:
+                self.act_redeliver_held()
         if self.rng.random() < 0.9:       # usually the fragment is acked: go on
             off += n
             cl.c.up_frag = (cl.c.up_frag + 1) & 15
@@ -301,7 +319,30 @@ class Gen:
             src = addr(cl.ip, cl.port + 1, cl.fam)          # another relay port, same host
         elif self.rng.random() < 0.1:
             src = addr(cl.ip ^ 0x100, cl.port, cl.fam)      # another relay host
-        self.q(cl, name, qtype=m["qtype"], id_=id_, src=src, meta={"kind": "redeliver", "orig": st0, "case": name != m["name"]})
+        qtype = m["qtype"]
+        if self.rng.random() < 0.1:
+            qtype = self.rng.choice([t for t in QTYPES if t != qtype])      # same name asked with another record type
+        self.q(cl, name, qtype=qtype, id_=id_, src=src, meta={"kind": "redeliver", "orig": st0, "case": name != m["name"]})
+
+    def act_redeliver_held(self):
+        """an impatient relay repeats a query the server is still holding (q or q_sendrealsoon), right now"""
+        if not self.h.steps:
+            return
+        slots = self.h.steps[-1].slots
+        held = set()
+        for d in slots.values():
+            for f in ("q", "qs"):
+                i = int(d[f].split("/")[0])
+                if i:
+                    held.add(i)
+        cands = [(cl, st) for cl in self.clients for st in cl.sent[-6:] if st.meta["id"] in held]
+        if not cands:
+            return
+        cl, st0 = self.rng.choice(cands)
+        m = st0.meta
+        name = m["name"] if self.rng.random() < 0.8 else flip_case(self.rng, m["name"])
+        src = m["src"] if self.rng.random() < 0.6 else addr(cl.ip, cl.port + 1, cl.fam)
+        self.q(cl, name, qtype=m["qtype"], id_=self.dnsid(zero_ok=False), src=src, meta={"kind": "redeliver-held", "orig": st0})
 
     def act_tun(self):
         r = self.rng.random()
@@ -312,7 +353,7 @@ class Gen:
             dst = (self.myip & 0xffffff00) | self.rng.randrange(256)
         else:
             dst = self.rng.randrange(1 << 32)
-        frame = C.ip_packet(dst, bytes(self.rng.randrange(256) for _ in range(self.rng.choice([0, 10, 80, 99, 100, 101, 300, 1400, 3000]))))
+        frame = C.ip_packet(dst, bytes(self.rng.randrange(256) for _ in range(self.rng.choice([0, 10, 80, 99, 100, 101, 300, 1400, 3000, 4100, 4500, 9000]))))
         if self.rng.random() < 0.05:
             frame = frame[:self.rng.randrange(0, 24)]
         self.h.send("tun " + vlib.hx(frame), {"kind": "tun", "dst": dst, "frame": frame})
@@ -413,9 +454,11 @@ class Gen:
                 self.act_ping(rng.choice(authed))
             elif r < 0.58 and authed:
                 self.act_data(rng.choice(authed))
-            elif r < 0.68 and authed:
+            elif r < 0.66 and authed:
                 self.act_redeliver(rng.choice(authed))
-            elif r < 0.78:
+            elif r < 0.70 and authed:
+                self.act_redeliver_held()
+            elif r < 0.79:
                 self.act_tun()
             elif r < 0.83 and live:
                 self.act_spoof(rng.choice(live))
